@@ -185,7 +185,37 @@ func genHostileExpr(t *rapid.T, depth int) (interface{}, string) {
 }
 
 func genChainOp(t *rapid.T, healthyPossible bool) chainOp {
-	switch rapid.IntRange(0, 26).Draw(t, "op") {
+	switch rapid.IntRange(0, 27).Draw(t, "op") {
+	case 27:
+		// column against column with a comparator no column type has, or a two-argument predicate function whose
+		// argument is not a column of the same type: an error for every column type
+		col := rapid.SampledFrom([]string{"ti", "tf", "tb", "ts"}).Draw(t, "cccol")
+		kind := rapid.IntRange(0, 3).Draw(t, "cckind")
+		comp := rapid.SampledFrom([]string{"nosuchcomp", "like", "in", "isnull", "all_bits", "~", ""}).Draw(t, "cccomp")
+		desc := fmt.Sprintf("column-column filter %s %q %s", col, comp, col)
+		mk := func() qframe.FilterClause {
+			return qframe.Filter{Column: col, Comparator: comp, Arg: types.ColumnName(col)}
+		}
+		if kind >= 2 {
+			// a well-formed two-argument predicate for the column's type, handed an argument of another kind
+			fn := map[string]interface{}{"ti": func(a, b int) bool { return a == b }, "tf": func(a, b float64) bool { return a == b },
+				"tb": func(a, b bool) bool { return a == b }, "ts": func(a, b *string) bool { return a == b }}[col]
+			other := map[string]string{"ti": "ts", "tf": "tb", "tb": "ti", "ts": "ti"}[col]
+			var arg interface{} = types.ColumnName(other)
+			if kind == 3 {
+				arg = rapid.SampledFrom([]interface{}{1, "x", nil, 2.5, true}).Draw(t, "ccarg")
+			}
+			desc = fmt.Sprintf("two-argument predicate on %s with argument %#v", col, arg)
+			mk = func() qframe.FilterClause { return qframe.Filter{Column: col, Comparator: fn, Arg: arg} }
+		}
+		return chainOp{desc: desc, mustErr: true, run: func(qf qframe.QFrame) qframe.QFrame {
+			tq := qf.Apply(qframe.Instruction{Fn: 1, DstCol: "ti"}, qframe.Instruction{Fn: 1.5, DstCol: "tf"},
+				qframe.Instruction{Fn: "x", DstCol: "ts"}, qframe.Instruction{Fn: true, DstCol: "tb"})
+			if tq.Err != nil {
+				return tq
+			}
+			return tq.Filter(mk())
+		}}
 	case 25:
 		// invalid Rolling configurations, in either order of the options
 		k := rapid.IntRange(0, 5).Draw(t, "rollcfg")
